@@ -55,19 +55,34 @@ Proof.
   destruct (cqc_verify (p_g P) (p_e P) (p_C P) q) as [[]| |]; [reflexivity|discriminate|discriminate].
 Qed.
 
-Lemma sync1_reach P s k : preach P s -> preach P (sync1 P s k).
+Lemma sync1_good P f s k :
+  sync1 P f s k = s \/
+  exists q, honestb P k = true /\ n_alive (g_node s k) = true /\
+    cqc_verify (p_g P) (p_e P) (p_C P) q = Ok tt /\ cqc_knownb P (g_soup s) q = true /\
+    hnum (cprop (qmsg q)) = r_store_next (n_live (g_node s k)) /\
+    sync1 P f s k = absorb s k (node_input (pcfg P k) (g_node s k)
+                      (ISync (r_store_next (n_live (g_node s k))) (hpay (cprop (qmsg q))))).
 Proof.
-  intros Hs. unfold sync1. destruct (live_node P s k) eqn:E; [|exact Hs].
+  unfold sync1. destruct (live_node P s k) eqn:E; [|left; reflexivity].
   apply live_node_true in E. destruct E as [E1 E2]. cbv zeta.
-  destruct (find_cert P s (r_store_next (n_live (g_node s k)))) as [q|] eqn:Ef; [|exact Hs].
-  destruct (someone_queued s _ _); [|exact Hs].
-  destruct (find_cert_spec P s _ q Ef) as (H1 & H2 & H3).
+  destruct (f (r_store_next (n_live (g_node s k)))) as [q|]; [|left; reflexivity].
+  match goal with |- context [if ?c then _ else _] => destruct c eqn:Ec end; [|left; reflexivity].
+  right. exists q.
+  apply andb_true_iff in Ec. destruct Ec as [Ec _]. apply andb_true_iff in Ec. destruct Ec as [Ec H3].
+  apply andb_true_iff in Ec. destruct Ec as [H1 H2]. apply Z.eqb_eq in H1.
+  repeat split; auto.
+  destruct (cqc_verify (p_g P) (p_e P) (p_C P) q) as [[]| |]; [reflexivity|discriminate|discriminate].
+Qed.
+
+Lemma sync1_reach P f s k : preach P s -> preach P (sync1 P f s k).
+Proof.
+  intros Hs. destruct (sync1_good P f s k) as [E|(q & H1 & H2 & H3 & H4 & H5 & E)]; rewrite E; [exact Hs|].
   eapply PReachStep; [exact Hs|]. apply (PSync P s k _ _ q); auto.
 Qed.
 
-Lemma sync_node_reach P fuel : forall s k, preach P s -> preach P (sync_node P fuel s k).
+Lemma sync_node_reach P f fuel : forall s k, preach P s -> preach P (sync_node P f fuel s k).
 Proof.
-  induction fuel as [|f IH]; intros s k Hs; cbn [sync_node]; [exact Hs|]. apply IH, sync1_reach, Hs.
+  induction fuel as [|fu IH]; intros s k Hs; cbn [sync_node]; [exact Hs|]. apply IH, sync1_reach, Hs.
 Qed.
 
 Lemma timer1_reach P s0 s k : preach P s -> preach P (timer1 P s0 s k).
@@ -78,7 +93,7 @@ Proof.
   eapply PReachStep; [exact Hs|]. apply PTimer; auto.
 Qed.
 
-Theorem sync_round_reach P pay s : preach P s -> preach P (sync_round P pay s).
+Theorem sync_round_reach P pay fetch s : preach P s -> preach P (sync_round P pay fetch s).
 Proof.
   intros Hs. unfold sync_round. cbv zeta.
   assert (H0 : preach P (revive_all P s)).
@@ -90,7 +105,7 @@ Proof.
   intros s1 i H1. unfold deliver_msg. apply fold_reach; [intros; apply deliver1_reach; assumption|exact H1].
 Qed.
 
-Theorem sync_rounds_reach P pay n : forall s, preach P s -> preach P (sync_rounds P pay n s).
+Theorem sync_rounds_reach P pay fetch n : forall s, preach P s -> preach P (sync_rounds P pay fetch n s).
 Proof.
   induction n as [|n IH]; intros s Hs; cbn [sync_rounds]; [exact Hs|]. apply IH, sync_round_reach, Hs.
 Qed.
@@ -519,6 +534,7 @@ Qed.
 Section Round.
   Variable P : params.
   Variable pay : Z -> Z.
+  Variable fetch : gstate -> Z -> option cqc.
 
   Lemma caught_input mv k s k' i :
     caught mv k s -> (k' = k -> n_alive (g_node s k) = true) ->
@@ -537,16 +553,15 @@ Section Round.
     destruct (_ =? _); [|exact Hc]. destruct (proposal_payload _ _ _); exact Hc.
   Qed.
 
-  Lemma caught_sync1 mv k s k' : caught mv k s -> caught mv k (sync1 P s k').
+  Lemma caught_sync1 f mv k s k' : caught mv k s -> caught mv k (sync1 P f s k').
   Proof.
-    intros Hc. unfold sync1. destruct (live_node P s k') eqn:E; [|exact Hc]. cbv zeta.
-    destruct (find_cert _ _ _); [|exact Hc]. destruct (someone_queued _ _ _); [|exact Hc].
-    apply caught_input; [exact Hc|]. intros ->. apply live_node_true in E. apply E.
+    intros Hc. destruct (sync1_good P f s k') as [E|(q & H1 & H2 & _ & _ & _ & E)]; rewrite E; [exact Hc|].
+    apply caught_input; [exact Hc|]. intros ->. exact H2.
   Qed.
 
-  Lemma caught_sync_node mv k fuel : forall s k', caught mv k s -> caught mv k (sync_node P fuel s k').
+  Lemma caught_sync_node f mv k fuel : forall s k', caught mv k s -> caught mv k (sync_node P f fuel s k').
   Proof.
-    induction fuel as [|f IH]; intros s k' Hc; cbn [sync_node]; [exact Hc|]. apply IH, caught_sync1, Hc.
+    induction fuel as [|fu IH]; intros s k' Hc; cbn [sync_node]; [exact Hc|]. apply IH, caught_sync1, Hc.
   Qed.
 
   Lemma caught_timer1 mv k s0 s k' : caught mv k s -> caught mv k (timer1 P s0 s k').
@@ -572,10 +587,10 @@ Section Round.
     justification_verify (p_g P) (p_e P) (p_C P) j = Ok tt ->
     nth_error (g_soup s) i0 = Some {| m_key := key; m_sig_ok := true; m_msg := MNewView j |} ->
     honestb P k = true ->
-    n_alive (g_node (sync_round P pay s) k) = true ->
-    vnum mv <= r_view (n_live (g_node (sync_round P pay s) k)).
+    n_alive (g_node (sync_round P pay fetch s) k) = true ->
+    vnum mv <= r_view (n_live (g_node (sync_round P pay fetch s) k)).
   Proof.
-    intros Hkey Hview Hver Hn Hk. change (caught mv k (sync_round P pay s)).
+    intros Hkey Hview Hver Hn Hk. change (caught mv k (sync_round P pay fetch s)).
     unfold sync_round. cbv zeta.
     assert (Hn0 : nth_error (g_soup (revive_all P s)) i0 =
                   Some {| m_key := key; m_sig_ok := true; m_msg := MNewView j |}).
@@ -687,7 +702,7 @@ Section Round.
      timeout vote for its view and, beyond view 0, a new-view message with its highest
      certificate; these are delivered to everybody in the next round. *)
   Theorem round_retransmits s k : preach P s -> honestb P k = true ->
-    let s' := sync_round P pay s in
+    let s' := sync_round P pay fetch s in
     n_alive (g_node s' k) = true ->
     r_view (n_live (g_node s' k)) = r_view (n_live (g_node (revive_all P s) k)) ->
     retransmitted s' k.
